@@ -125,6 +125,9 @@ class MixedLogReader(object):
                                                                 save_index=save_index, max_bytes=max_bytes,
                                                                 num_threads=num_threads)
         self.next_index_elem = 0
+        # The file offset of the most recent index entry consumed by a read or seek, or -1 at the start of the file. Used to
+        # continue in the right place when the filters are changed.
+        self._prev_entry_offset_bytes = -1
         self.index = self._original_index
         self.filtered_message_types = False
         self._populate_available_source_ids()
@@ -157,6 +160,7 @@ class MixedLogReader(object):
         self.start_time = datetime.now()
 
         self.next_index_elem = 0
+        self._prev_entry_offset_bytes = -1
         self.input_file.seek(0, os.SEEK_SET)
 
     def seek_to_message(self, message_index: int, is_filtered_index: bool = False):
@@ -170,6 +174,7 @@ class MixedLogReader(object):
         if not is_filtered_index:
             self.clear_filters()
         self.next_index_elem = message_index
+        self._prev_entry_offset_bytes = -1 if message_index == 0 else int(self.index.offset[message_index - 1])
 
     def seek_to_eof(self):
         self._read_next(force_eof=True)
@@ -224,6 +229,7 @@ class MixedLogReader(object):
                     header.unpack(data, warn_on_unrecognized=False)
                     self.total_bytes_read = offset_bytes + header.get_message_size()
                     self.next_index_elem = len(self.index)
+                    self._prev_entry_offset_bytes = int(offset_bytes)
             else:
                 return
 
@@ -408,6 +414,7 @@ class MixedLogReader(object):
             offset_bytes = self.index.offset[self.next_index_elem]
             self.current_message_index = self.index.message_index[self.next_index_elem]
             self.next_index_elem += 1
+            self._prev_entry_offset_bytes = int(offset_bytes)
             self.input_file.seek(offset_bytes, os.SEEK_SET)
             self.total_bytes_read = offset_bytes
             return True
@@ -494,13 +501,11 @@ class MixedLogReader(object):
         #
         # If we're reading directly from the file without an index, we'll just pick up where the current seek is, so no
         # need to do anything special.
+        #
+        # Note that the offset of the most recent message cannot be recovered from next_index_elem alone: after an earlier
+        # filter change the current index may not contain any entry at or before the message we read last.
         if self.index is not None:
-            if self.next_index_elem == 0:
-                prev_offset_bytes = -1
-            else:
-                # Note that next_index_elem refers to the _next_ message to be read. We want the offset of the message
-                # that we just read.
-                prev_offset_bytes = self.index.offset[self.next_index_elem - 1]
+            prev_offset_bytes = self._prev_entry_offset_bytes
 
         if isinstance(clear_existing, str):
             # Verify input string and clear accordingly.
